@@ -22,6 +22,8 @@ import (
 	staking "github.com/oasisprotocol/oasis-core/go/staking/api"
 )
 
+var stakingAppName = stakingState.AppName
+
 // liveState returns the in-flight block state of a replica (valid between ABCI calls of one block).
 func (r *cnReplica) liveState() (mkvs.KeyValueTree, func()) {
 	ctx := r.srv.State().NewContext(cmtapi.ContextDeliverTx)
@@ -204,7 +206,9 @@ func (a *cnProbeApp) EndBlock(*cmtapi.Context) (cmtabci.ResponseEndBlock, error)
 
 func (a *cnProbeApp) BeginBlock(ctx *cmtapi.Context) error {
 	changed, epoch := ctx.AppState().EpochChanged(ctx)
-	if !changed || a.p.sink == nil {
+	// the scheduler elects on an epoch change (except in the bootstrap epoch) and whenever stake was slashed in this block
+	slashed := ctx.HasEvent(stakingAppName, &staking.TakeEscrowEvent{})
+	if base, _ := ctx.AppState().GetBaseEpoch(); epoch == base || (!changed && !slashed) || a.p.sink == nil {
 		return nil
 	}
 	n := a.p.r.net
@@ -214,7 +218,7 @@ func (a *cnProbeApp) BeginBlock(ctx *cmtapi.Context) error {
 		if err != nil {
 			m = map[string]any{"error": err.Error()}
 		}
-		m["ev"], m["epoch"], m["h"] = "elect_in", int64(epoch), ctx.CurrentHeight()
+		m["ev"], m["epoch"], m["h"], m["epoch_changed"] = "elect_in", int64(epoch), ctx.CurrentHeight(), changed
 		a.p.emit(m)
 	case "200_sz_probe":
 		m, err := n.electionOutput(ctx, ctx.State())
@@ -302,9 +306,15 @@ func (n *cnNet) keyName(k string) string {
 
 func (n *cnNet) electionOutput(ctx context.Context, t mkvs.ImmutableKeyValueTree) (map[string]any, error) {
 	sc := schedulerState.NewImmutableState(t)
-	vals, err := sc.CurrentValidators(ctx)
+	// the election stores its result as the pending set; EndBlock turns it into validator updates
+	vals, err := sc.PendingValidators(ctx)
 	if err != nil {
 		return nil, err
+	}
+	if vals == nil {
+		if vals, err = sc.CurrentValidators(ctx); err != nil {
+			return nil, err
+		}
 	}
 	var vl []map[string]any
 	for cons, v := range vals {
